@@ -502,3 +502,37 @@ func VerifC13_PlainGraphFrozen() {
 	zzverif.Assert(!has, "reversed-graph-has-its-own-label-index")
 	zzverif.Reach("queried")
 }
+
+// VerifC17_StableNames: relation names that are close to each other (differ in case only, prefixes of
+// each other): one DOT text per model over every order of the relations map.
+func VerifC17_StableNames() {
+	zzverif.UlidOrder()
+	menu := []string{"a", "A", "b", "ab", "B", "a_b", "aB"}
+	i := zzverif.Choose("first", len(menu))
+	j := zzverif.Choose("second", len(menu))
+	k := zzverif.Choose("third", len(menu))
+	if i >= j || j >= k {
+		zzverif.Skip("names in menu order only (the model is a set of relations)")
+		return
+	}
+	n1, n2, n3 := menu[i], menu[j], menu[k]
+	td := &openfgav1.TypeDefinition{Type: "doc", Relations: map[string]*openfgav1.Userset{
+		n1: fThis(), n2: fComputed(n1), n3: fOp(zzverif.Choose("op", 3), fThis(), fComputed(n2))},
+		Metadata: &openfgav1.Metadata{Relations: map[string]*openfgav1.RelationMetadata{
+			n1: {DirectlyRelatedUserTypes: []*openfgav1.RelationReference{fRef("user")}},
+			n3: {DirectlyRelatedUserTypes: []*openfgav1.RelationReference{fRef("user"), fUserset("doc", n1)}}}}}
+	m := &openfgav1.AuthorizationModel{SchemaVersion: "1.1", TypeDefinitions: []*openfgav1.TypeDefinition{{Type: "user"}, td}}
+	g, err := NewAuthorizationModelGraph(m)
+	if err != nil {
+		return
+	}
+	key := n1 + "," + n2 + "," + n3
+	zzverif.Observe("dot "+key, g.GetDOT())
+	if r, err := g.Reversed(); err == nil {
+		zzverif.Observe("reversed dot "+key, r.GetDOT())
+	}
+	spec := pSpec(m)
+	got, _, _ := realText(g)
+	zzverif.Assert(got == spec.text(), "nodes-and-typed-lines-are-what-the-rewrite-dictates")
+	zzverif.Reach("rendered")
+}
